@@ -249,3 +249,9 @@ class Rc4(Case):
 
 for c in (Stream, Core, Rc4):
     register(c())
+
+
+# ---- lemmas for the stubs this check relies on (see props.common.Borrowed) ----
+from props.common import Borrowed, REGISTRY
+from props import c01 as _c01
+register(Borrowed(REGISTRY['C01.reverse_byte'], 'C06', 'reverse_byte'))
